@@ -24,9 +24,12 @@ Proof. repeat split; reflexivity. Qed.
 Theorem C19_src_parse_sites : to_num_parses_directly = true /\ literal_parses_directly = true.
 Proof. split; reflexivity. Qed.
 (* a number becomes text only at run time through Display: every `${}` part is followed by FormatString and the
-   compiler never rewrites what it emitted (no compile-time formatting of literals); String.from uses Display *)
+   compiler never rewrites what it emitted (no compile-time formatting of literals); String.from and the `print`
+   native use Display; none of these, nor the Display impls of Value / vec / tuple / map, contains a numeric cast *)
 Theorem C19_src_text_routes : interpolation_formats_every_part = true /\ interpolation_never_edits_chunk = true
-  /\ format_string_uses_display = true /\ string_from_uses_display = true.
+  /\ format_string_uses_display = true /\ string_from_uses_display = true
+  /\ print_uses_display = true /\ print_has_no_numeric_code = true
+  /\ text_routes_have_no_numeric_cast = true /\ display_impls_have_no_numeric_cast = true.
 Proof. repeat split; reflexivity. Qed.
 
 (* the model instantiated with what the sources say *)
